@@ -318,3 +318,123 @@ func VerifC12_complement_and_inverse_pairs() {
 	}
 	verifReach("C12/verb/laws/end")
 }
+
+// nest explode/implode across records are inverse, and leave records whose field has nothing to
+// split (one piece, the empty value, no such field) unchanged; the sub/gsub/ssub verbs rewrite only
+// the values of the fields they name (by name list, and by -r with Miller's regex-literal forms).
+func VerifC12_nest_and_sub_verbs() {
+	var in [][]c12KV
+	for i := 0; i < 2; i++ {
+		r := []c12KV{{"k", "id" + string(rune('0'+i))}}
+		switch verifChoice("a_value", 4) {
+		case 0:
+			r = append(r, c12KV{"a", "v"})
+		case 1:
+			r = append(r, c12KV{"a", ""})
+		case 2:
+			r = append(r, c12KV{"a", "v;w"})
+		}
+		if verifBool("has_B") {
+			r = append(r, c12KV{"B", "vov"})
+		}
+		r = append(r, c12KV{"c", "ovo"})
+		in = append(in, r)
+	}
+	switch verifChoice("verb", 5) {
+	case 0:
+		mid := c12Run(verifVerb("nest", "--explode", "--values", "--across-records", "-f", "a", "--nested-fs", ";"), in)
+		// one record per piece; a record with nothing to split passes unchanged
+		p := 0
+		for _, r := range in {
+			v, has := c12Get(r, "a")
+			pieces := []string{v}
+			if has && v == "v;w" {
+				pieces = []string{"v", "w"}
+			}
+			for _, piece := range pieces {
+				verifAssert(p < len(mid), "C12/nest/explode-one-record-per-piece")
+				if p < len(mid) {
+					var want []c12KV
+					for _, kv := range r {
+						if kv.k == "a" {
+							kv.v = piece
+						}
+						want = append(want, kv)
+					}
+					verifAssert(c12Same(mid[p], want), "C12/nest/explode-changes-only-the-named-field")
+				}
+				p++
+			}
+		}
+		verifAssert(p == len(mid), "C12/nest/explode-record-count")
+		back := c12Run(verifVerb("nest", "--implode", "--values", "--across-records", "-f", "a", "--nested-fs", ";"), mid)
+		verifAssert(len(back) == len(in), "C12/nest/implode-inverts-explode-count")
+		// (records lacking the field pass through at once, imploded ones come at the end of the
+		// stream: the same records, in input order when every record has the field)
+		allHave := true
+		for _, r := range in {
+			if _, has := c12Get(r, "a"); !has {
+				allHave = false
+			}
+		}
+		for i := 0; i < len(back) && i < len(in); i++ {
+			if allHave {
+				verifAssert(c12Same(back[i], in[i]), "C12/nest/implode-inverts-explode")
+			} else {
+				n := 0
+				for _, b := range back {
+					if c12Same(b, in[i]) {
+						n++
+					}
+				}
+				verifAssert(n == 1, "C12/nest/implode-inverts-explode-as-a-set")
+			}
+		}
+	default:
+		argvs := [][]string{
+			{"gsub", "-f", "a,c", "v", "X"},
+			{"sub", "-f", "c,B", "o", "X"},
+			{"ssub", "-f", "B", "vo", "X"},
+			{"gsub", "-r", "-f", "\"^b\"i,\"^C\"i", "v", "X"},
+		}
+		which := verifChoice("argv", len(argvs))
+		named := [][]string{{"a", "c"}, {"c", "B"}, {"B"}, {"B", "c"}}[which]
+		rewrite := []func(string) string{
+			func(s string) string { return c12ReplaceAll(s, "v", "X", -1) },
+			func(s string) string { return c12ReplaceAll(s, "o", "X", 1) },
+			func(s string) string { return c12ReplaceAll(s, "vo", "X", 1) },
+			func(s string) string { return c12ReplaceAll(s, "v", "X", -1) },
+		}[which]
+		out := c12Run(verifVerb(argvs[which]...), in)
+		verifAssert(len(out) == len(in), "C12/sub-verbs/one-record-out-per-record-in")
+		for i := 0; i < len(out) && i < len(in); i++ {
+			var want []c12KV
+			for _, kv := range in[i] {
+				if c12In(kv.k, named) {
+					kv.v = rewrite(kv.v)
+				}
+				want = append(want, kv)
+			}
+			verifAssert(c12Same(out[i], want), "C12/sub-verbs/only-the-named-fields-are-rewritten")
+		}
+	}
+	verifReach("C12/nest-sub/end")
+}
+
+// plain substring replacement (n < 0: all occurrences)
+func c12ReplaceAll(s, old, new string, n int) string {
+	out := ""
+	for i := 0; i < len(s); {
+		if n != 0 && i+len(old) <= len(s) && s[i:i+len(old)] == old {
+			out += new
+			i += len(old)
+			if n > 0 {
+				n--
+			}
+		} else {
+			out += string(s[i])
+			i++
+		}
+	}
+	return out
+}
